@@ -92,6 +92,37 @@ mod vx_kani {
     }
 }
 #[cfg(kani)]
+mod vx_kani_thorough {
+    //! thorough-tier cross-checks of functions that Verus verifies through a desugaring (R-ALL): the COMPILED original against the same contract
+    use super::*;
+    fn spec_bit(l: &NodeLabel, i: u32) -> u8 {
+        (l.label_val[(i / 8) as usize] >> (7 - (i % 8))) & 1
+    }
+    fn stub_format(_a: core::fmt::Arguments<'_>) -> String {
+        String::new()
+    }
+    /// BOUNDED (labels of <= 16 bits, value bytes symbolic): is_prefix_of(a, b) <==> a.len <= b.len and the first a.len bits agree
+    #[kani::proof]
+    #[kani::unwind(18)]
+    #[kani::stub(alloc::fmt::format, stub_format)]
+    fn c17_is_prefix_of_compiled() {
+        let a = NodeLabel { label_val: kani::any(), label_len: kani::any() };
+        let b = NodeLabel { label_val: kani::any(), label_len: kani::any() };
+        kani::assume(a.label_len <= 16 && b.label_len <= 16);
+        let r = a.is_prefix_of(&b);
+        let mut agree = true;
+        let mut i = 0u32;
+        while i < 16 {
+            if i < a.label_len && spec_bit(&a, i) != spec_bit(&b, i) {
+                agree = false;
+            }
+            i += 1;
+        }
+        assert!(r == (a.label_len <= b.label_len && agree));
+    }
+}
+
+#[cfg(kani)]
 mod vx_kani_c18 {
     use super::*;
     /// NodeLabel::to_bytes = be32(label_len) || label_val  (complete: fixed width) — the `label_bytes` of the Verus units
